@@ -64,8 +64,9 @@ import (
 //
 // Witness classes (all Property C19): ttl-clock:kept-expired, ttl-clock:stalled-after-session,
 // ttl-clock:removed-fresh, ttl-clock:non-date-removed, ttl-clock:non-ttl-collection-touched,
-// ttl-clock:delete-events (≠ exactly one delete event per removed document, or a delete event for a kept
-// or unknown document), ttl-clock:index-incoherent (index members ≠ documents [matching the partial
+// ttl-clock:pass-incomplete (exact, from the commit log of the wrapped store: a pass that removed something left
+// a document that was already expired when the pass began), ttl-clock:delete-events (≠ exactly one delete event
+// per removed document, or a delete event for a kept or unknown document), ttl-clock:index-incoherent (index members ≠ documents [matching the partial
 // filter]), ttl-clock:active-after-close, ttl-clock:close-hang, ttl-clock:panic, ttl-clock:setup-failed.
 // The delete events' own wallTime gives a second, tight "removed-fresh" check (wallTime < X − 5 ms) and the
 // latency tags (wallTime − X of the last "soon" removals, in intervals).
@@ -126,6 +127,7 @@ type tcDoc struct {
 	hasDate  bool  // some TTL field of the collection holds a date leaf in this document
 	ttlColl  bool  // the collection has a TTL index
 	ready    int64 // ms since which document and TTL index both exist
+	readySeq int   // number of Store calls of the current engine completed when document and TTL index both existed
 	explicit bool  // deleted by the scenario itself (expected: exactly one delete event)
 	dontCare bool  // no verdict (e.g. the TTL index was dropped too close to the cutoff)
 	soon     bool
@@ -159,22 +161,66 @@ func tcMs(t time.Time) int64 { return t.UnixMilli() }
 // tcStore wraps the store and records slow Store calls: a commit that sits in fsync for hundreds of
 // milliseconds on a loaded disk holds the engine lock and legitimately delays the next expiry pass, so its
 // end counts like the end of a blocking session in the must-be-gone rule.
+//
+// It also keeps the commit log (end time and oplog length of every Store call), which identifies the expiry
+// passes exactly: the events oplog[len(k−1):len(k)] were committed by call k, and the transaction of call k
+// began after call k−1 had returned (the write token is released after the store call).
 type tcStore struct {
-	inner   lungo.Store
-	mu      sync.Mutex
-	slowEnd int64 // ms: end of the last Store call that took more than 25 ms
-	slow    int
-	calls   int
+	inner    lungo.Store
+	mu       sync.Mutex
+	slowEnd  int64 // ms: end of the last Store call that took more than 25 ms
+	slow     int
+	calls    int
+	openedAt int64 // ms, taken before the engine was created
+	baseLen  int   // oplog length of the loaded catalog
+	log      []tcCommit
+	shrunk   bool // the oplog got shorter (retention): event indexes are not stable, no pass audit
 }
 
-func (t *tcStore) Load() (*lungo.Catalog, error) { return t.inner.Load() }
+type tcCommit struct {
+	end      int64
+	oplogLen int
+}
+
+func tcOplogLen(c *lungo.Catalog) int {
+	if c == nil {
+		return 0
+	}
+	if ns := c.Namespaces[lungo.Oplog]; ns != nil {
+		return len(ns.Documents.List)
+	}
+	return 0
+}
+
+func (t *tcStore) Load() (*lungo.Catalog, error) {
+	c, err := t.inner.Load()
+	t.mu.Lock()
+	t.baseLen = tcOplogLen(c)
+	t.mu.Unlock()
+	return c, err
+}
+
+func (t *tcStore) count() int {
+	t.mu.Lock()
+	defer t.mu.Unlock()
+	return t.calls
+}
 
 func (t *tcStore) Store(c *lungo.Catalog) error {
 	start := time.Now()
 	err := t.inner.Store(c)
 	end := time.Now()
+	n := tcOplogLen(c)
 	t.mu.Lock()
 	t.calls++
+	prev := t.baseLen
+	if len(t.log) > 0 {
+		prev = t.log[len(t.log)-1].oplogLen
+	}
+	if n < prev {
+		t.shrunk = true
+	}
+	t.log = append(t.log, tcCommit{end: tcMs(end), oplogLen: n})
 	if end.Sub(start) > 25*time.Millisecond {
 		t.slow++
 		t.slowEnd = tcMs(end)
@@ -526,10 +572,10 @@ func (s *tcScn) insertAll(ctx context.Context) error {
 		}
 	}
 	s.tag(fmt.Sprintf("insert-round-b/file=%v:", s.p.File) + tcBucket(int(time.Since(s.base)/time.Millisecond), 50, 150, 300) + "ms")
-	ready := tcMs(time.Now())
+	ready, seq := tcMs(time.Now()), s.store.count()
 	s.mu.Lock()
 	for _, d := range s.docs {
-		d.ready = ready
+		d.ready, d.readySeq = ready, seq
 	}
 	s.mu.Unlock()
 	return nil
@@ -664,11 +710,12 @@ func (s *tcScn) audit(sn tcSnap) (maxLatency int64) {
 		id string
 	}
 	deletes := map[key][]int64{}
+	delIndex := map[key]int{} // oplog index of the (first) delete event
 	var oplog bsonkit.List
 	if ns := sn.cat.Namespaces[lungo.Oplog]; ns != nil {
 		oplog = ns.Documents.List
 	}
-	for _, ev := range oplog {
+	for evIdx, ev := range oplog {
 		if op, _ := bsonkit.Get(ev, "operationType").(string); op != "delete" {
 			continue
 		}
@@ -682,6 +729,9 @@ func (s *tcScn) audit(sn tcSnap) (maxLatency int64) {
 		w, _ := bsonkit.Get(ev, "wallTime").(primitive.DateTime)
 		k := key{lungo.Handle{db, coll}, id}
 		deletes[k] = append(deletes[k], int64(w))
+		if _, seen := delIndex[k]; !seen {
+			delIndex[k] = evIdx
+		}
 	}
 	known := map[key]bool{}
 	maxLatency = -1
@@ -729,6 +779,47 @@ func (s *tcScn) audit(sn tcSnap) (maxLatency int64) {
 			s.viol("ttl-clock:delete-events", "a delete event for a document the scenario never committed", fmt.Sprintf("%s.%s _id=%s: %d delete events", k.h[0], k.h[1], k.id, len(evs)))
 		}
 	}
+	// pass audit (exact, no timing margins): a commit that carries expiry deletions was made by a pass whose
+	// transaction began after the previous Store call had returned; every document that was expired by then
+	// (and existed with its TTL index by then) must be removed by the same commit
+	s.store.mu.Lock()
+	log := append([]tcCommit(nil), s.store.log...)
+	prevLen, prevEnd, shrunk := s.store.baseLen, s.store.openedAt, s.store.shrunk
+	s.store.mu.Unlock()
+	expiryDelete := map[int]bool{}
+	for _, d := range docs {
+		if i, ok := delIndex[key{d.h, d.id}]; ok && !d.explicit {
+			expiryDelete[i] = true
+		}
+	}
+	passes := 0
+	for k, c := range log {
+		if shrunk || c.oplogLen > len(oplog) {
+			break
+		}
+		isPass := false
+		for i := prevLen; i < c.oplogLen; i++ {
+			if expiryDelete[i] {
+				isPass = true
+				break
+			}
+		}
+		if isPass {
+			passes++
+			for _, d := range docs {
+				if d.explicit || d.dontCare || !d.ttlColl || d.x == tcNever || d.readySeq > k || d.x+5 >= prevEnd {
+					continue
+				}
+				if i, ok := delIndex[key{d.h, d.id}]; !ok || i >= c.oplogLen {
+					s.viol("ttl-clock:pass-incomplete", "an expiry pass removed documents but left a document in place that was already expired when the pass began",
+						fmt.Sprintf("%s.%s %s kind=%s: expired %d ms before the pass began, pass = Store call %d with events [%d,%d)", d.h[0], d.h[1], vj.Enc(d.doc), d.kind, prevEnd-d.x, k+1, prevLen, c.oplogLen))
+				}
+			}
+		}
+		prevLen, prevEnd = c.oplogLen, c.end
+	}
+	s.tag("dirty-passes:" + tcBucket(passes, 2, 4, 8))
+
 	// index coherence
 	for _, h := range sortedHandles(sn.cat) {
 		if h == lungo.Oplog {
@@ -816,7 +907,7 @@ func (s *tcScn) lastSoon() int64 {
 }
 
 func (s *tcScn) open(store lungo.Store, interval time.Duration) error {
-	s.store = &tcStore{inner: store}
+	s.store = &tcStore{inner: store, openedAt: tcMs(time.Now())}
 	client, engine, err := lungo.Open(nil, lungo.Options{Store: s.store, ExpireInterval: interval, ExpireErrors: func(err error) {
 		s.mu.Lock()
 		s.errs++
@@ -966,7 +1057,7 @@ func ttlclockCase(p tcParams) (c run.Case) {
 		ready := tcMs(time.Now())
 		s.mu.Lock()
 		for _, d := range s.docs {
-			d.ready = ready
+			d.ready, d.readySeq = ready, 0
 		}
 		s.mu.Unlock()
 	}
@@ -994,7 +1085,7 @@ func ttlclockCase(p tcParams) (c run.Case) {
 					s.viol("ttl-clock:setup-failed", "canary insert failed", err.Error())
 					return
 				}
-				d.ready = tcMs(time.Now())
+				d.ready, d.readySeq = tcMs(time.Now()), s.store.count()
 				second = append(second, d)
 			}
 			if s.waitGone(second, limit) {
@@ -1227,9 +1318,10 @@ func (s *tcScn) session(ctx context.Context, commit bool, holdEnd int64) error {
 			if err := sc.CommitTransaction(sc); err != nil {
 				return err
 			}
-			now := tcMs(time.Now())
-			s.track(w, "sess", d1, false).ready = now
-			s.track(e1, "sess", d2, false).ready = now // already expired: must be removed after the commit
+			now, seq := tcMs(time.Now()), s.store.count()
+			for _, d := range []*tcDoc{s.track(w, "sess", d1, false), s.track(e1, "sess", d2, false)} {
+				d.ready, d.readySeq = now, seq // the one in ta.e1 is already expired: the next pass must remove it
+			}
 			return nil
 		}
 		return sc.AbortTransaction(sc) // the two documents never existed: any event for them is a violation
